@@ -10,10 +10,14 @@
 //!       down                            the owning session stops
 //! stdout: one Coq-syntax term per case: a list with one entry per cast/call/reply op
 //!   (outs, (tag, pending, cursor))  with outs = [OSend t (mkMsg call v [bytes])] / [OResolve port [bytes]]
-use std::collections::BTreeMap;
+use std::collections::{BTreeMap, HashMap};
+use std::sync::{Arc, Mutex};
+use std::time::Duration;
 
 use ractor::concurrency::OneshotReceiver;
-use ractor::message::SerializedMessage;
+use ractor::message::{BoxedDowncastErr, SerializedMessage};
+use ractor::{Actor, ActorCell, ActorProcessingErr, ActorRef, ActorStatus, RpcReplyPort};
+use ractor_cluster::node::node_session::verif_remote::{VFrame, VerifRemoteSession};
 use ractor_cluster::remote_verif::{VerifProxy, VerifSent};
 use rv_harness::*;
 
@@ -133,12 +137,282 @@ async fn run_proxy(rest: &str) -> String {
     coq_list(&outs)
 }
 
+// ---------------------------------------------------------------------------------------
+// E3b: the real NodeSession handlers (node messages, control messages, lifecycle events)
+//
+//   sess <case-id> <xs: q,q,..|-> | <op> ; ...
+//     local actors (index i):   spawn i | join i g | leave i g | exit i
+//     frames arriving:          rcast i v bytes | rcall i tag v bytes          (i = 99: unknown pid)
+//                               fspawn q | fterm q | fjoin g q | fleave g q | freply q tag bytes
+//     through remote references: send q v bytes | scall q v bytes port | drop port
+//   one output per op: (mkU ok [wire] [dlv] [res] [px])
+
+/// A message type that keeps variant and argument bytes as they are.
+enum RawMsg {
+    Cast(String, Vec<u8>),
+    Call(String, Vec<u8>, RpcReplyPort<Vec<u8>>),
+}
+
+impl ractor::Message for RawMsg {
+    fn serializable() -> bool {
+        true
+    }
+    fn serialize(self) -> Result<SerializedMessage, BoxedDowncastErr> {
+        Ok(match self {
+            RawMsg::Cast(variant, args) => SerializedMessage::Cast { variant, args, metadata: None },
+            RawMsg::Call(variant, args, reply) => SerializedMessage::Call { variant, args, reply, metadata: None },
+        })
+    }
+    fn deserialize(m: SerializedMessage) -> Result<Self, BoxedDowncastErr> {
+        match m {
+            SerializedMessage::Cast { variant, args, .. } => Ok(RawMsg::Cast(variant, args)),
+            SerializedMessage::Call { variant, args, reply, .. } => Ok(RawMsg::Call(variant, args, reply)),
+            SerializedMessage::CallReply(..) => Err(BoxedDowncastErr),
+        }
+    }
+}
+
+struct RawProbe {
+    idx: u64,
+    log: Arc<Mutex<Vec<String>>>,
+}
+
+impl Actor for RawProbe {
+    type Msg = RawMsg;
+    type State = Vec<RpcReplyPort<Vec<u8>>>;
+    type Arguments = ();
+    async fn pre_start(&self, _: ActorRef<RawMsg>, _: ()) -> Result<Self::State, ActorProcessingErr> {
+        Ok(vec![])
+    }
+    async fn handle(&self, _: ActorRef<RawMsg>, m: RawMsg, held: &mut Self::State) -> Result<(), ActorProcessingErr> {
+        match m {
+            RawMsg::Cast(v, a) => {
+                self.log.lock().unwrap().push(format!("({}, mkMsg false {} {})", self.idx, v, coq_bytes(&a)));
+            }
+            RawMsg::Call(v, a, reply) => {
+                self.log.lock().unwrap().push(format!("({}, mkMsg true {} {})", self.idx, v, coq_bytes(&a)));
+                let vn: u64 = v.parse().unwrap_or(1);
+                if vn % 2 == 0 {
+                    let mut d = vec![self.idx as u8];
+                    d.extend_from_slice(&a);
+                    let _ = reply.send(d);
+                } else {
+                    held.push(reply);
+                }
+            }
+        }
+        Ok(())
+    }
+}
+
+const REMOTE_BASE: u64 = 1_000_000;
+
+async fn run_sess(rest: &str) -> String {
+    let (head, ops) = rest.split_once('|').expect("missing |");
+    let hw: Vec<&str> = head.split_whitespace().collect();
+    let case = u(hw[0]);
+    let xs: Vec<u64> = if hw[1] == "-" { vec![] } else { hw[1].split(',').map(u).collect() };
+    let gname = |g: u64| format!("u{case}g{g}");
+    let scope = ractor::pg::DEFAULT_SCOPE.to_string();
+    let mut sess = VerifRemoteSession::new(3).await;
+    sess.sync();
+    let log: Arc<Mutex<Vec<String>>> = Arc::new(Mutex::new(Vec::new()));
+    let mut probes: HashMap<u64, ActorCell> = HashMap::new();
+    let mut pid_idx: HashMap<u64, u64> = HashMap::new();
+    let mut handles: HashMap<u64, ActorCell> = HashMap::new(); // remote pid -> last seen proxy cell
+    let mut ports: BTreeMap<u64, OneshotReceiver<Vec<u8>>> = BTreeMap::new();
+    let mut groups_used: Vec<u64> = Vec::new();
+    let mut outs: Vec<String> = Vec::new();
+    // settle: let every task run, feed the queued events/messages to the real handlers, repeat
+    async fn settle(sess: &mut VerifRemoteSession) {
+        let mut quiet = 0;
+        for _ in 0..200 {
+            tokio::time::sleep(Duration::from_millis(1)).await;
+            if sess.pump().await == 0 {
+                quiet += 1;
+                if quiet >= 2 {
+                    return;
+                }
+            } else {
+                quiet = 0;
+            }
+        }
+        eprintln!("eng_remote: INFRA FAILURE: session did not settle");
+        std::process::exit(2);
+    }
+    settle(&mut sess).await;
+    let _ = sess.take_sent(); // initial sync: Ready (nothing exists yet)
+    let idx_of = |pid_idx: &HashMap<u64, u64>, pid: u64| pid_idx.get(&pid).copied().unwrap_or(pid);
+    for op in ops.split(';') {
+        let w: Vec<&str> = op.split_whitespace().collect();
+        if w.is_empty() {
+            continue;
+        }
+        let mut ok = true;
+        let local_pid = |probes: &HashMap<u64, ActorCell>, i: u64| probes.get(&i).map(|c| c.get_id().pid()).unwrap_or(999_999);
+        match w[0] {
+            "spawn" => {
+                let i = u(w[1]);
+                let (a, _) = Actor::spawn(None, RawProbe { idx: i, log: log.clone() }, ()).await.expect("probe");
+                pid_idx.insert(a.get_id().pid(), i);
+                probes.insert(i, a.get_cell());
+            }
+            "join" | "leave" => {
+                let (i, g) = (u(w[1]), u(w[2]));
+                if !groups_used.contains(&g) {
+                    groups_used.push(g);
+                }
+                if let Some(c) = probes.get(&i) {
+                    if w[0] == "join" {
+                        ractor::pg::join(gname(g), vec![c.clone()]);
+                    } else {
+                        ractor::pg::leave(gname(g), vec![c.clone()]);
+                    }
+                }
+            }
+            "exit" => {
+                if let Some(c) = probes.get(&u(w[1])) {
+                    let _ = c.stop_and_wait(None, None).await;
+                }
+            }
+            "rcast" => {
+                let to = local_pid(&probes, u(w[1]));
+                sess.receive(VFrame::Cast { to, variant: w[2].to_string(), what: bytes(w[3]) }).await;
+            }
+            "rcall" => {
+                let to = local_pid(&probes, u(w[1]));
+                sess.receive(VFrame::Call { to, tag: u(w[2]), variant: w[3].to_string(), what: bytes(w[4]), timeout_ms: None })
+                    .await;
+            }
+            "fspawn" => {
+                sess.receive(VFrame::Spawn(vec![REMOTE_BASE + u(w[1])])).await;
+            }
+            "fterm" => {
+                sess.receive(VFrame::Terminate(vec![REMOTE_BASE + u(w[1])])).await;
+            }
+            "fjoin" | "fleave" => {
+                let (g, q) = (u(w[1]), REMOTE_BASE + u(w[2]));
+                if !groups_used.contains(&g) {
+                    groups_used.push(g);
+                }
+                let f = if w[0] == "fjoin" {
+                    VFrame::PgJoin(scope.clone(), gname(g), vec![q])
+                } else {
+                    VFrame::PgLeave(scope.clone(), gname(g), vec![q])
+                };
+                sess.receive(f).await;
+            }
+            "freply" => {
+                sess.receive(VFrame::Reply { to: REMOTE_BASE + u(w[1]), tag: u(w[2]), what: bytes(w[3]) }).await;
+            }
+            "send" | "scall" => {
+                let q = REMOTE_BASE + u(w[1]);
+                for (pid, cell) in sess.proxies() {
+                    handles.insert(pid, cell);
+                }
+                ok = match handles.get(&q) {
+                    None => false,
+                    Some(cell) => {
+                        let m = if w[0] == "send" {
+                            SerializedMessage::Cast { variant: w[2].to_string(), args: bytes(w[3]), metadata: None }
+                        } else {
+                            let (tx, rx) = ractor::concurrency::oneshot::<Vec<u8>>();
+                            ports.insert(u(w[4]), rx);
+                            SerializedMessage::Call { variant: w[2].to_string(), args: bytes(w[3]), reply: tx.into(), metadata: None }
+                        };
+                        cell.send_serialized(m).is_ok()
+                    }
+                };
+            }
+            "drop" => {
+                ports.remove(&u(w[1]));
+            }
+            other => panic!("unknown op {other}"),
+        }
+        settle(&mut sess).await;
+        // wire
+        let mut wire: Vec<String> = Vec::new();
+        let gnum = |name: &str| -> u64 {
+            name.strip_prefix(&format!("u{case}g")).and_then(|x| x.parse().ok()).unwrap_or(u64::MAX)
+        };
+        for f in sess.take_sent() {
+            match f {
+                VFrame::Cast { to, variant, what } => {
+                    wire.push(format!("WMsg {} 0 (mkMsg false {} {})", idx_of(&pid_idx, to), variant, coq_bytes(&what)))
+                }
+                VFrame::Call { to, tag, variant, what, .. } => {
+                    wire.push(format!("WMsg {} {} (mkMsg true {} {})", idx_of(&pid_idx, to), tag, variant, coq_bytes(&what)))
+                }
+                VFrame::Reply { to, tag, what } => wire.push(format!("WReply {} {} {}", idx_of(&pid_idx, to), tag, coq_bytes(&what))),
+                VFrame::Spawn(p) => p.iter().for_each(|x| wire.push(format!("WSpawn {}", idx_of(&pid_idx, *x)))),
+                VFrame::Terminate(p) => p.iter().for_each(|x| wire.push(format!("WTerm {}", idx_of(&pid_idx, *x)))),
+                VFrame::PgJoin(sc, g, p) => {
+                    assert_eq!(sc, scope);
+                    p.iter().for_each(|x| wire.push(format!("WJoin {} {}", gnum(&g), idx_of(&pid_idx, *x))))
+                }
+                VFrame::PgLeave(sc, g, p) => {
+                    assert_eq!(sc, scope);
+                    p.iter().for_each(|x| wire.push(format!("WLeave {} {}", gnum(&g), idx_of(&pid_idx, *x))))
+                }
+                VFrame::Ready | VFrame::Other => wire.push("WOther".to_string()),
+            }
+        }
+        let dlv: Vec<String> = std::mem::take(&mut *log.lock().unwrap());
+        let mut res: Vec<String> = Vec::new();
+        let mut done = vec![];
+        for (p, rx) in ports.iter_mut() {
+            match rx.try_recv() {
+                Ok(d) => {
+                    res.push(format!("({}, {})", p, coq_bytes(&d)));
+                    done.push(*p);
+                }
+                Err(tokio::sync::oneshot::error::TryRecvError::Closed) => done.push(*p),
+                Err(_) => {}
+            }
+        }
+        for p in done {
+            ports.remove(&p);
+        }
+        let live: HashMap<u64, ActorCell> = sess.proxies().into_iter().collect();
+        let mut px: Vec<String> = Vec::new();
+        for q in &xs {
+            let pid = REMOTE_BASE + q;
+            let alive = live.get(&pid).map(|c| c.get_status() < ActorStatus::Stopping).unwrap_or(false);
+            let mut gs: Vec<u64> = Vec::new();
+            // membership is judged on the last handle seen for this pid (also after it stopped)
+            let cell = live.get(&pid).or_else(|| handles.get(&pid));
+            if let Some(c) = cell {
+                for g in &groups_used {
+                    if ractor::pg::get_members(&gname(*g)).iter().any(|m| m.get_id() == c.get_id()) {
+                        gs.push(*g);
+                    }
+                }
+            }
+            gs.sort();
+            px.push(format!("({}, {}, {})", pid, coq_bool(alive), coq_nums(gs)));
+        }
+        for (pid, cell) in live {
+            handles.insert(pid, cell);
+        }
+        outs.push(format!("(mkU {} {} {} {} {})", coq_bool(ok), coq_list(&wire), coq_list(&dlv), coq_list(&res), coq_list(&px)));
+    }
+    for c in probes.values() {
+        let _ = c.stop_and_wait(None, None).await;
+    }
+    sess.shutdown().await;
+    coq_list(&outs)
+}
+
 fn main() {
     let rt = tokio::runtime::Builder::new_current_thread().enable_all().build().unwrap();
     for line in stdin_lines() {
         let (kind, rest) = line.split_once(' ').unwrap_or((&line, ""));
         let out = match kind {
             "proxy" => rt.block_on(run_proxy(rest)),
+            "sess" => {
+                let rtp = tokio::runtime::Builder::new_current_thread().enable_all().start_paused(true).build().unwrap();
+                rtp.block_on(run_sess(rest))
+            }
             other => panic!("unknown case kind {other}"),
         };
         println!("{out}");
